@@ -17,6 +17,7 @@ from liquid2.builtin import is_empty
 from liquid2.exceptions import LiquidTypeError
 from liquid2.filter import int_arg
 from liquid2.filter import with_environment
+from liquid2.stringify import to_liquid_string
 from liquid2.undefined import is_undefined
 
 if TYPE_CHECKING:
@@ -71,7 +72,7 @@ def date(  # noqa: PLR0912 PLR0911
         return ""
 
     if is_undefined(fmt):
-        return str(dat)
+        return to_liquid_string(dat)
 
     if isinstance(dat, str):
         if dat in ("now", "today"):
